@@ -1,8 +1,41 @@
-(* C18 - placeholder (DESIGN.md 7 C18). *)
-From DL Require Import Base Symbolic.
+(* C18 - symbolic shapes mean what the Python operator expression means.
+   [sym] are the trees Python's own evaluation of + - * // ** (with Python's precedence and associativity: the tree
+   is built by the interpreter, not by dltype), Min, Max, ISqrt, Group and integers builds; [pyden] is the arithmetic
+   of the tree; [sprint] mirrors the __str__ methods (constant folding of two literal operands, parentheses around
+   an infix operand of lower - or, on the right, equal - precedence).  For every tree whose identifiers are
+   identifiers and whose literals and folded constants are non-negative ([sym_ok]; a negative constant prints as
+   `-n`, which the string grammar rejects: known finding K4), the printed string is accepted by the parser and the
+   resulting dimension evaluates, under every identifier-keyed scope, to the value Python gives the expression:
+   the route is sprint s = print_string (embed s) for a stratified [embed s] with den (embed s) = pyden s
+   (SymbolicProof.embed_correct), then C05.  That ConstantAxis / AnonymousAxis arithmetic is TypeError is checked by
+   the harness (the model has no such operands: [sym] cannot express them). *)
+From DL Require Import Base Lexer Parser Eval Symbolic Grammar Denote ParseEval SymbolicProof.
+
+Lemma lvl_ge_1 s : 1 <= lvl s.
+Proof. unfold lvl. destruct (infix_prec s) as [p|] eqn:E; [|lia]. destruct s; try discriminate. injection E as <-. destruct o; simpl; lia. Qed.
+
+Theorem C18_symbolic : forall s, sym_ok s ->
+  exists str d, sprint s = Ok str /\ expression_from_string str = Ok d /\
+                forall sc, scope_ok sc -> evaluate d sc true = pyden s sc.
+Proof.
+  intros s Hok. destruct (embed_correct s Hok) as (P & N & W & D).
+  destruct (parse_eval (embed s) (W 1 (lvl_ge_1 s)) N) as (d & E & _ & _ & _ & _ & V).
+  exists (print_string (embed s)), d. split; [exact P|]. split; [exact E|].
+  intros sc Hs. rewrite (V sc Hs). apply D.
+Qed.
+
+(* the formerly wrong shapes, as the repaired printer prints them *)
 Example C18_examples :
   sprint (SBin MUL (SBin ADD (SVar "a") (SVar "b")) (SVar "c")) = Ok "(a+b)*c" /\
   sprint (SBin SUB (SVar "a") (SBin SUB (SVar "b") (SVar "c"))) = Ok "a-(b-c)" /\
   sprint (SBin EXP (SVar "a") (SBin EXP (SVar "b") (SVar "c"))) = Ok "a^(b^c)" /\
-  sprint (SBin EXP (SBin EXP (SVar "a") (SVar "b")) (SVar "c")) = Ok "a^b^c".
+  sprint (SBin EXP (SBin EXP (SVar "a") (SVar "b")) (SVar "c")) = Ok "a^b^c" /\
+  sprint (SBin MUL (SVar "a") (SBin DIV (SVar "b") (SVar "c"))) = Ok "a*(b/c)" /\
+  sprint (SBin ADD (SVar "a") (SBin SUB (SLit 1) (SLit 3))) = Ok "a+-2".      (* K4 *)
 Proof. repeat split; reflexivity. Qed.
+Example C18_hypotheses_satisfiable :
+  sym_ok (SBin DIV (SGroup (SBin SUB (SVar "a") (SBin EXP (SVar "b") (SGroup (SBin SUB (SLit 4) (SVar "z"))))))
+                   (SIsqrt (SBin SUB (SVar "b") (SFun2 MIN (SLit 2) (SLit 3))))).
+Proof. simpl. repeat split; auto; try lia. exists 2%Z. split; [reflexivity|lia]. Qed.
+
+Redirect "C18.assumptions.1" Print Assumptions C18_symbolic.
